@@ -1,2 +1,102 @@
-(** placeholder until the C07 theorems are in place *)
-From Texel Require Import Prelude.Base.
+(** * C07 — deterministic and independent of how the polygon is written down.
+
+    The model [snapPolygon] is a Gallina function, so "same input, same output" is [C07_deterministic];
+    the ordered maps of the Go code (orderedmap, sortedmap, sorted keys) are modelled as ordered lists and
+    checked against the implementation by the correspondence cases.  The one place where the Go code
+    iterates an unordered map — over the requested levels — is covered by [C07_level_order_irrelevant]
+    (any order of the levels gives the same keyed results) together with C08's [levels_keyed].
+    Ring direction: [C07_ring_direction_irrelevant] (valid polygons have rings of >= 3 vertices and
+    non-zero area; the float winding sign of the input is the envelope).  Reverse flag:
+    [C07_reverse_flag_only_reverses] per level and [C07_reverse_flag_snapPolygon] for the keyed result. *)
+From Coq Require Import ZArith List Bool Permutation.
+From Texel Require Import Prelude.Base Index.Model Snap.Model Snap.ProofsBasics Snap.ProofsLevelThms
+  Snap.ProofsLevelC07.
+Import ListNotations.
+Open Scope Z_scope.
+
+Theorem C07_deterministic : forall g P levels cfg r1 r2,
+  snapPolygon g P levels cfg = r1 -> snapPolygon g P levels cfg = r2 -> r1 = r2.
+Proof. exact snap_functional. Qed.
+Print Assumptions C07_deterministic.
+
+(** any order of the requested levels: the keyed results are a permutation of each other *)
+Theorem C07_level_order_irrelevant : forall g P levels levels' cfg r, Permutation levels levels' ->
+  snapPolygon g P levels cfg = Ok r ->
+  exists r', snapPolygon g P levels' cfg = Ok r' /\ Permutation r r'.
+Proof. exact level_order_irrelevant. Qed.
+Print Assumptions C07_level_order_irrelevant.
+
+(** and whether snapping panics does not depend on the order (which panic is raised first may) *)
+Theorem C07_level_order_irrelevant_err : forall g P levels levels' cfg, Permutation levels levels' ->
+  is_ok (snapPolygon g P levels cfg) = is_ok (snapPolygon g P levels' cfg).
+Proof. exact level_order_irrelevant_err. Qed.
+Print Assumptions C07_level_order_irrelevant_err.
+
+(** giving ANY subset of the rings in the opposite direction returns the identical result *)
+Theorem C07_ring_direction_irrelevant : forall g P P' levels cfg,
+  Forall2 (fun r' r => r' = r \/ r' = rev r) P' P ->
+  Forall (fun r : ring => (3 <= length r)%nat /\ xprod r <> 0) P ->
+  snapPolygon g P' levels cfg = snapPolygon g P levels cfg.
+Proof. exact ring_direction_irrelevant. Qed.
+Print Assumptions C07_ring_direction_irrelevant.
+
+(** the basic fact behind it: the cross-product sum changes sign under reversal *)
+Theorem C07_xprod_rev : forall r, xprod (rev r) = - xprod r.
+Proof. exact xprod_rev. Qed.
+Print Assumptions C07_xprod_rev.
+
+(** requesting reversed winding order changes nothing except the direction of every ring of the
+    polygon part ([poly_ok 1]: shell first, >= 3 vertices each); collapsed parts are unchanged *)
+Theorem C07_reverse_flag_only_reverses : forall g hots P cfg L,
+  match snapLevel g hots P (setRev cfg false) L with
+  | Err e => snapLevel g hots P (setRev cfg true) L = Err e
+  | Ok res =>
+      exists polys pls, res = levelOut polys pls /\
+        snapLevel g hots P (setRev cfg true) L = Ok (levelOut (map (map (@rev pt)) polys) pls) /\
+        Forall (poly_ok 1) polys /\ Forall pl_ok pls
+  end.
+Proof. exact reverse_flag_only_reverses. Qed.
+Print Assumptions C07_reverse_flag_only_reverses.
+
+Theorem C07_reverse_flag_snapPolygon : forall g P levels cfg r,
+  snapPolygon g P levels (setRev cfg false) = Ok r ->
+  exists r', snapPolygon g P levels (setRev cfg true) = Ok r' /\
+             Forall2 (fun kv kv' => fst kv = fst kv' /\ rev_related (snd kv) (snd kv')) r r'.
+Proof. exact snap_reverse_flag. Qed.
+Print Assumptions C07_reverse_flag_snapPolygon.
+
+(** ** non-vacuity: a shell with a spike and a hole on a 32 x 32 pixel grid (pixel size 2);
+       at level 3 the spike collapses to a line, at level 1 the hole collapses to a point *)
+Definition exG : grid := mkGrid (mkExtent 0 0 64 64) 2 5.
+Definition exP : list ring :=
+  [[(2,2);(40,2);(40,40);(21,40);(20,60);(19,40);(2,40)]; [(10,10);(10,20);(20,20);(20,10)]].
+Definition exP_rev : list ring :=
+  [rev [(2,2);(40,2);(40,40);(21,40);(20,60);(19,40);(2,40)]; [(10,10);(10,20);(20,20);(20,10)]].
+Definition exCfg (rv : bool) : config := mkConfig true false rv.
+
+Example C07_ring_direction_hyp :
+  Forall2 (fun r' r => r' = r \/ r' = rev r) exP_rev exP /\
+  Forall (fun r : ring => (3 <= length r)%nat /\ xprod r <> 0) exP.
+Proof.
+  split.
+  - constructor; [right; reflexivity | constructor; [left; reflexivity | constructor]].
+  - repeat constructor; vm_compute; discriminate.
+Qed.
+
+Example C07_ring_direction_example :
+  snapPolygon exG exP_rev [3; 1]%nat (exCfg false) =
+    Ok [(3%nat, [[[(4,4);(44,4);(44,44);(20,44);(4,44)]; [(12,12);(12,20);(20,20);(20,12)]]; [[(20,44);(20,60)]]]);
+        (1%nat, [[[(16,16);(48,16);(48,48);(16,48)]]; [[(16,16)]]])] /\
+  snapPolygon exG exP [3; 1]%nat (exCfg false) = snapPolygon exG exP_rev [3; 1]%nat (exCfg false).
+Proof. vm_compute. split; reflexivity. Qed.
+
+Example C07_level_order_example :
+  snapPolygon exG exP [1; 3]%nat (exCfg false) =
+    Ok [(1%nat, [[[(16,16);(48,16);(48,48);(16,48)]]; [[(16,16)]]]);
+        (3%nat, [[[(4,4);(44,4);(44,44);(20,44);(4,44)]; [(12,12);(12,20);(20,20);(20,12)]]; [[(20,44);(20,60)]]])].
+Proof. vm_compute. reflexivity. Qed.
+
+Example C07_reverse_flag_example :
+  snapPolygon exG exP [3]%nat (setRev (exCfg false) true) =
+    Ok [(3%nat, [[[(4,44);(20,44);(44,44);(44,4);(4,4)]; [(20,12);(20,20);(12,20);(12,12)]]; [[(20,44);(20,60)]]])].
+Proof. vm_compute. reflexivity. Qed.
